@@ -162,3 +162,187 @@ theorem segVolumes_local (E : Env) (path sec : Str) : (segVolumes E path sec).Lo
   rw [lookupAll_congr (h _ (by simp [segVolumes]))]
 
 end Cv
+
+namespace Cv
+open MM
+
+/-! ### the user-namespace options: one block, a function of nine keys -/
+def mapKeys : List Str :=
+  [s "UserNS", s "UIDMap", s "GIDMap", s "SubUIDMap", s "SubGIDMap", s "RemapUid", s "RemapGid", s "RemapUsers", s "RemapUidSize"]
+
+theorem handleUserRemap_congr (u u' : SUnit) (sec : Str) (sm : Bool)
+    (h : ∀ k ∈ mapKeys, assignments u sec k = assignments u' sec k) : handleUserRemap u sec sm = handleUserRemap u' sec sm := by
+  unfold handleUserRemap
+  rw [lookup_congr (h (s "UserNS") (by decide)), lookupAllStrv_congr (h (s "RemapUid") (by decide)),
+    lookupAllStrv_congr (h (s "RemapGid") (by decide)), lookup_congr (h (s "RemapUsers") (by decide)),
+    lookup_congr (h (s "RemapUidSize") (by decide))]
+
+theorem handleUserMappings_congr (u u' : SUnit) (sec : Str) (sm : Bool)
+    (h : ∀ k ∈ mapKeys, assignments u sec k = assignments u' sec k) : handleUserMappings u sec sm = handleUserMappings u' sec sm := by
+  unfold handleUserMappings
+  simp only []
+  rw [lookup_congr (h (s "UserNS") (by decide)), lookupAllStrv_congr (h (s "UIDMap") (by decide)),
+    lookupAllStrv_congr (h (s "GIDMap") (by decide)), lookup_congr (h (s "SubUIDMap") (by decide)),
+    lookup_congr (h (s "SubGIDMap") (by decide)), lookup_congr (h (s "RemapUid") (by decide)),
+    lookup_congr (h (s "RemapGid") (by decide)), lookup_congr (h (s "RemapUsers") (by decide)),
+    handleUserRemap_congr u u' sec sm h]
+
+def segMaps (sec : Str) (sm : Bool) : Seg := ⟨mapKeys, fun u => blockOf (handleUserMappings u sec sm)⟩
+theorem segMaps_local (sec : Str) (sm : Bool) : (segMaps sec sm).Local sec := by
+  intro u u' h
+  simp only [segMaps]
+  rw [handleUserMappings_congr u u' sec sm h]
+
+end Cv
+
+namespace Cv
+open MM
+
+theorem blockOf_ok {r : R (List Str)} {l : List Str} (h : r = .ok l) : blockOf r = l := by rw [h]; rfl
+
+/-! ### .pod (the `pod create` command, ExecStartPre) -/
+def podSegs (E : Env) (path : Str) : List Seg :=
+  let sec := s "Pod"
+  [segConst [E.podman]]
+    ++ Gen.tbl_get_base_podman_command_inline_lookup_and_add_all_strings.map (segAll sec)
+    ++ [segArgs sec "GlobalArgs",
+        segConst [s "pod", s "create", s "--infra-conmon-pidfile=%t/%N.pid", s "--pod-id-file=%t/%N.pod-id", s "--exit-policy=stop", s "--replace"],
+        segMaps sec true]
+    ++ Gen.tbl_handle_publish_ports_inline_lookup_and_add_all_strings.map (segAll sec)
+    ++ [segNetworks E sec]
+    ++ Gen.tbl_from_pod_unit_string_keys.map (segString sec)
+    ++ Gen.tbl_from_pod_unit_all_string_keys.map (segAll sec)
+    ++ [segVolumes E path sec,
+        segMulti [s "PodName"] (fun u => [s "--infra-name", podNameOf path u ++ s "-infra", s "--name", podNameOf path u]),
+        segArgs sec "PodmanArgs"]
+
+theorem podSegs_local (E : Env) (path : Str) : ∀ g ∈ podSegs E path, g.Local (s "Pod") := by
+  intro g hg
+  simp only [podSegs, List.mem_append, List.mem_map, List.mem_cons, List.not_mem_nil, or_false] at hg
+  rcases hg with ((((((rfl | ⟨r, _, rfl⟩) | rfl | rfl | rfl) | ⟨r, _, rfl⟩) | rfl) | ⟨r, _, rfl⟩) | ⟨r, _, rfl⟩) | rfl | rfl | rfl
+  · exact segConst_local _ _
+  · exact segAll_local _ _
+  · exact segArgs_local _ _
+  · exact segConst_local _ _
+  · exact segMaps_local _ _
+  · exact segAll_local _ _
+  · exact segNetworks_local _ _
+  · exact segString_local _ _
+  · exact segAll_local _ _
+  · exact segVolumes_local _ _ _
+  · intro u u' h
+    simp only [segMulti, podNameOf]
+    rw [lookup_congr (h _ (by simp [segMulti]))]
+  · exact segArgs_local _ _
+
+/-- a `.pod` unit that converts carries, as ExecStartPre, the rendering of the concatenation of its segments' blocks -/
+theorem fromPod_segs (E : Env) (path : Str) (u svc : SUnit) (cts : List Str) (h : fromPod E path u cts = .ok svc) :
+    HasExec svc "ExecStartPre" (cmdOf (podSegs E path) u) := by
+  unfold fromPod at h
+  simp only [bind_ok] at h
+  obtain ⟨_, _, _, _, s1, _, s2, _, s3, _, maps, hmaps, x5, hnets, x6, hvols, s7, hexec, hfin⟩ := h
+  simp only [pure, Except.pure, Except.ok.injEq] at hfin
+  subst hfin
+  have e1 := blockOf_ok hmaps
+  have e2 := blockOf_ok (handleNetworks_args _ _ _ _ _ hnets)
+  have e3 := blockOf_ok (handleVolumes_args _ _ _ _ _ _ hvols)
+  have e : cmdOf (podSegs E path) u =
+      baseCmd E u (s "Pod") ++ [s "pod", s "create", s "--infra-conmon-pidfile=%t/%N.pid", s "--pod-id-file=%t/%N.pod-id",
+          s "--exit-policy=stop", s "--replace"]
+        ++ maps ++ publishPorts u (s "Pod") ++ x5.1
+        ++ (addString u (s "Pod") Gen.tbl_from_pod_unit_string_keys ++ addAllStrings u (s "Pod") Gen.tbl_from_pod_unit_all_string_keys)
+        ++ x6.1 ++ [s "--infra-name", podNameOf path u ++ s "-infra", s "--name", podNameOf path u] ++ podmanArgs u (s "Pod") := by
+    unfold podSegs
+    simp only [cmdOf_append, cmdOf_string, cmdOf_bool, cmdOf_all]
+    simp [cmdOf, baseCmd, moduleArgs, addAllStrings0, addAllStrings, podmanArgs, publishPorts, segConst, segArgs, segMulti, segMaps,
+      segNetworks, segVolumes, e1, e2, e3]
+  rw [e]
+  exact ((((HasExec.of_addRawExec hexec).addS _ _ _).addS _ _ _).addS _ _ _).addS _ _ _
+
+end Cv
+
+namespace Cv
+open MM
+
+/-- a block computed from the words of a plain list key -/
+def segStrv (sec : Str) (key : String) (f : List Str → List Str) : Seg := ⟨[s key], fun u => f (lookupAllStrv u sec (s key))⟩
+theorem segStrv_local (sec : Str) (key : String) (f : List Str → List Str) : (segStrv sec key f).Local sec := by
+  intro u u' h; simp only [segStrv]; rw [lookupAllStrv_congr (h (s key) (by simp [segStrv]))]
+/-- a block computed from the words of an argument-style key -/
+def segArgsWith (sec : Str) (key : String) (f : List Str → List Str) : Seg := ⟨[s key], fun u => f (lookupAllArgs u sec (s key))⟩
+theorem segArgsWith_local (sec : Str) (key : String) (f : List Str → List Str) : (segArgsWith sec key f).Local sec := by
+  intro u u' h; simp only [segArgsWith]; rw [lookupAllArgs_congr (h (s key) (by simp [segArgsWith]))]
+
+/-! ### .kube -/
+def kubeSegs (E : Env) (path : Str) : List Seg :=
+  let sec := s "Kube"
+  [segConst [E.podman]]
+    ++ Gen.tbl_get_base_podman_command_inline_lookup_and_add_all_strings.map (segAll sec)
+    ++ [segArgs sec "GlobalArgs", segConst [s "kube", s "play", s "--replace", s "--service-container=true"],
+        segLast sec "ExitCodePropagation" (fun o => match o with
+          | some e => if e.isEmpty then [] else [s "--service-exit-code-propagation=" ++ e] | none => []),
+        segLast sec "LogDriver" (fun o => match o with | some v => if v.isEmpty then [] else [s "--log-driver", v] | none => []),
+        segStrv sec "LogOpt" (fun l => l.flatMap fun o => [s "--log-opt", o]),
+        segMaps sec false, segNetworks E sec,
+        segStrv sec "AutoUpdate" (fun l => l.flatMap fun upd =>
+          match splitOnce '/' upd with
+          | some (a, t) => [s "--annotation", s "io.containers.autoupdate" ++ ('/' :: a) ++ '=' :: t]
+          | none => [s "--annotation", s "io.containers.autoupdate=" ++ upd]),
+        segStrv sec "ConfigMap" (fun l => l.flatMap fun c => [s "--configmap", absFromUnit path c])]
+    ++ Gen.tbl_handle_publish_ports_inline_lookup_and_add_all_strings.map (segAll sec)
+    ++ [segArgs sec "PodmanArgs", segLast sec "Yaml" (fun o => [absFromUnit path (o.getD [])])]
+
+theorem kubeSegs_local (E : Env) (path : Str) : ∀ g ∈ kubeSegs E path, g.Local (s "Kube") := by
+  intro g hg
+  simp only [kubeSegs, List.mem_append, List.mem_map, List.mem_cons, List.not_mem_nil, or_false] at hg
+  rcases hg with (((rfl | ⟨r, _, rfl⟩) | rfl | rfl | rfl | rfl | rfl | rfl | rfl | rfl | rfl) | ⟨r, _, rfl⟩) | rfl | rfl
+  · exact segConst_local _ _
+  · exact segAll_local _ _
+  · exact segArgs_local _ _
+  · exact segConst_local _ _
+  · exact segLast_local _ _ _
+  · exact segLast_local _ _ _
+  · exact segStrv_local _ _ _
+  · exact segMaps_local _ _
+  · exact segNetworks_local _ _
+  · exact segStrv_local _ _ _
+  · exact segStrv_local _ _ _
+  · exact segAll_local _ _
+  · exact segArgs_local _ _
+  · exact segLast_local _ _ _
+
+theorem fromKube_segs (E : Env) (path : Str) (u svc : SUnit) (h : fromKube E path u = .ok svc) :
+    HasExec svc "ExecStart" (cmdOf (kubeSegs E path) u) := by
+  unfold fromKube at h
+  simp only [bind_ok] at h
+  obtain ⟨_, _, _, _, h⟩ := h
+  split at h
+  · exact absurd h (throw_bind_ne_ok _ _ _)
+  · simp only [bind_ok] at h
+    obtain ⟨s1, _, s2, _, maps, hmaps, x4, hnets, s5, hexec, s6, hstop, x7, hwd, hfin⟩ := h
+    simp only [pure, Except.pure, Except.ok.injEq] at hfin
+    subst hfin
+    have e1 := blockOf_ok hmaps
+    have e2 := blockOf_ok (handleNetworks_args _ _ _ _ _ hnets)
+    have e : cmdOf (kubeSegs E path) u =
+        baseCmd E u (s "Kube") ++ [s "kube", s "play", s "--replace", s "--service-container=true"]
+        ++ (match lookup u (s "Kube") (s "ExitCodePropagation") with
+            | some e => if e.isEmpty then [] else [s "--service-exit-code-propagation=" ++ e] | none => [])
+        ++ logDriver u (s "Kube") ++ logOpt u (s "Kube")
+        ++ maps ++ x4.1 ++ kubeAutoUpdate u ++ kubeConfigMaps path u ++ publishPorts u (s "Kube") ++ podmanArgs u (s "Kube")
+        ++ [absFromUnit path ((lookup u (s "Kube") (s "Yaml")).getD [])] := by
+      unfold kubeSegs
+      simp only [cmdOf_append, cmdOf_string, cmdOf_bool, cmdOf_all]
+      simp [cmdOf, baseCmd, moduleArgs, addAllStrings0, addAllStrings, podmanArgs, publishPorts, segConst, segArgs, segMaps, segLast, segStrv,
+        segNetworks, logDriver, logOpt, kubeAutoUpdate, kubeConfigMaps, e1, e2]
+      rfl
+    rw [e]
+    have h1 := (HasExec.of_addRawExec hexec).addRawExec hstop
+    unfold handleSetWorkingDirectory at hwd
+    split at hwd
+    · simp at hwd
+    · simp only [Except.ok.injEq] at hwd
+      rw [← hwd]
+      exact h1.applyWd _
+
+end Cv
